@@ -121,6 +121,9 @@ def run_script(run, case):
     regs = regions(kind, framing, cfg, names)
     if kind == 'udp' and any(b['kind'] in ('garbage', 'partial') for b in script):
         regs.add('socket-short-header')
+    warm = bool(case.get('warm'))
+    if warm:
+        peer.script.insert(0, {'kind': 'own'})       # the warm-up transaction is answered conformantly
     for slug in regs:
         run.region(slug)
     kinds = {}
@@ -128,6 +131,20 @@ def run_script(run, case):
         kw = dict(timeout=TIMEOUT, retries=cfg['retries'], retry_on_empty=cfg['retry_on_empty'], retry_on_invalid=cfg['retry_on_invalid'])
         client = IO.make_client(kind, **kw)
         client.connect()
+        base = 0
+        if warm:
+            # a client that has already completed a transaction (its framer, transaction table and state are no longer pristine)
+            m0 = {'dir': REQ, 'fc': 3, 'address': 77, 'count': 1}
+            try:
+                r0 = client.execute(A.build(m0, unit=UNIT))
+                ok0 = classify_result(r0, P.conformant_reply(P.lazy_regfile(), m0), None, UNIT, None, framing) == 'own'
+            except Exception:  # noqa
+                ok0 = False
+            base = peer.i
+            if not ok0 or base != 1:
+                run.count('warmup_failed')
+                return True
+            run.count('warm_scripts')
         t0, ops0 = env.clock.now, env.ops
         req = A.build(m, unit=UNIT)
         result, exc = None, None
@@ -138,9 +155,9 @@ def run_script(run, case):
         except Exception as e:  # noqa
             exc = e
         elapsed, ops = env.clock.now - t0, env.ops - ops0
-        attempts = peer.i
+        attempts = peer.i - base
         consumed = (list(names) + ['own'] * attempts)[:attempts]      # beyond the script the peer answers conformantly
-        del peer.script[attempts:]                                   # the follow-up transaction meets a healthy peer
+        del peer.script[base + attempts:]                            # the follow-up transaction meets a healthy peer
         run.count('scripts:%s' % kind)
         run.count('attempts', attempts)
         R = cfg['retries']
@@ -281,11 +298,12 @@ def run(run):
                 if run.nviol > 400:
                     break                 # the tree is clearly broken: more witnesses add nothing but run time
                 m = REQUESTS[idx % len(REQUESTS)]
-                case = {'client': kind, 'cfg': cfg, 'script': list(names), 'm': m, 'bseed': idx}
+                warm = (idx // 3) % 2 == 1            # every second script meets a client that has already completed a transaction
+                case = {'client': kind, 'cfg': cfg, 'script': list(names), 'm': m, 'bseed': idx, 'warm': warm}
                 ok = run_script(run, case)
-                run.case(h64((kind, tuple(sorted(cfg.items())), names, m['fc'])), any(n not in ('own',) for n in names),
-                         sample={'client': kind, 'config': cfg, 'script': list(names), 'request_fc': m['fc'], 'verdict': 'bounded, result, recovered' if ok else 'differs'},
-                         sample_class=(kind, cfg['retries'], ok))
+                run.case(h64((kind, tuple(sorted(cfg.items())), names, m['fc'], warm)), any(n not in ('own',) for n in names),
+                         sample={'client': kind, 'config': cfg, 'script': list(names), 'request_fc': m['fc'], 'warm_client': warm, 'verdict': 'bounded, result, recovered' if ok else 'differs'},
+                         sample_class=(kind, cfg['retries'], warm, ok))
     # the UDP client's default configuration has no timeout at all
     if run.mine(0):
         udp_default_timeout(run)
